@@ -196,6 +196,9 @@ def unpaged (req : Request) : Request := { req with limit := none, offset := 0 }
 theorem sameSel_pageReq (req : Request) (k i : Nat) : SameSel (pageReq req k i) req :=
   ⟨rfl, rfl, rfl, rfl, rfl⟩
 
+theorem sameSel_page_unpaged (req : Request) (k i : Nat) :
+    SameSel (pageReq req k i) (unpaged req) := ⟨rfl, rfl, rfl, rfl, rfl⟩
+
 theorem sameSel_unpaged (req : Request) : SameSel (unpaged req) req := ⟨rfl, rfl, rfl, rfl, rfl⟩
 
 /-- no per-backend cut is ever applied: the evaluation has none, or the sort order is not the
